@@ -1012,8 +1012,11 @@ def determine_node_junctions(
 
             # Only choose node candidates that are not part of current traces
             # nodes
+            # Position of the first node of the current trace in the
+            # flattened nodes
+            first_point_idx = flattened_idx_reference.index(idx)
             node_candidates_idx = [
-                val if val <= idx else val - associated_point_count
+                val if val < first_point_idx else val - associated_point_count
                 for val in node_candidates_idx
                 if val in remaining_idxs
             ]
